@@ -37,8 +37,14 @@ type Query {
 	stamp: Stamp
 	"reports m through transport.AddSubscriptionError (websocket only) n times, then answers"
 	boom(m: String, n: Int): String!
+	"a resolver that fails (round 5, fail.go): panics / returns an error, recovered and reported per field as generated code does"
+	fail(how: String = "panic", m: String = "x", at: Int): String
+	"panics without a field-level recover: reaches the transport's / the server's recover"
+	escape(m: String = "x"): String
+	"a list: response paths with indices"
+	nodes(n: Int = 3): [Node]
 }
-type Node { id: String! op: String! child: Node }
+type Node { id: String! op: String! child: Node fail(how: String = "panic", m: String = "x", at: Int): String }
 type Mutation { set(v: String): String! }
 type Subscription { tick(n: Int, g: String, fail: String, failAt: Int): String! }
 input In { x: String y: [Int!] }
@@ -81,9 +87,9 @@ func (e echoSchema) Exec(ctx context.Context) graphql.ResponseHandler {
 	opCtx := graphql.GetOperationContext(ctx)
 	switch opCtx.Operation.Operation {
 	case ast.Query:
-		return graphql.OneShot(&graphql.Response{Data: e.execObj(ctx, opCtx, "Query", opCtx.Operation.SelectionSet, 0)})
+		return graphql.OneShot(&graphql.Response{Data: e.execObj(ctx, opCtx, "Query", opCtx.Operation.SelectionSet, 0, nil)})
 	case ast.Mutation:
-		return graphql.OneShot(&graphql.Response{Data: e.execObj(ctx, opCtx, "Mutation", opCtx.Operation.SelectionSet, 0)})
+		return graphql.OneShot(&graphql.Response{Data: e.execObj(ctx, opCtx, "Mutation", opCtx.Operation.SelectionSet, 0, nil)})
 	default:
 		if opCtx.Headers.Get(wsMarkHeader) == "" {
 			return graphql.OneShot(graphql.ErrorResponse(ctx, "subscriptions are not served over this transport"))
@@ -160,7 +166,9 @@ func tickStream(ctx context.Context, opCtx *graphql.OperationContext) graphql.Re
 // the abstract types an object type satisfies (fragment type conditions)
 var satisfies = map[string][]string{"Sq": {"Sq", "Shape", "Thing"}, "Circle": {"Circle", "Shape", "Thing"}, "Node": {"Node", "Thing"}}
 
-func (e echoSchema) execObj(ctx context.Context, opCtx *graphql.OperationContext, typ string, sels ast.SelectionSet, depth int) []byte {
+// hp is the harness's OWN record of the response path of the object being executed (aliases and list indices handed
+// down the recursion) - independent of the path gqlgen derives from the field contexts
+func (e echoSchema) execObj(octx context.Context, opCtx *graphql.OperationContext, typ string, sels ast.SelectionSet, depth int, hp []any) []byte {
 	if depth == 0 {
 		parkAt("exec", opCtx.Headers) // the document is in hand, nothing collected yet
 	}
@@ -172,7 +180,25 @@ func (e echoSchema) execObj(ctx context.Context, opCtx *graphql.OperationContext
 	out := graphql.NewFieldSet(fields)
 	for i, f := range fields {
 		var s string
+		// every field is executed under a field context of its own, as generated code does
+		ctx := graphql.WithFieldContext(octx, &graphql.FieldContext{Object: typ, Field: f})
+		fp := append(append(make([]any, 0, len(hp)+1), hp...), f.Alias)
 		switch f.Name {
+		case "fail":
+			out.Values[i] = failField(ctx, opCtx, f, fp)
+			continue
+		case "escape":
+			escapeField(ctx, opCtx, f)
+		case "nodes":
+			n := intArg(f.ArgumentMap(opCtx.Variables), "n", 3)
+			var arr graphql.Array
+			for j := 0; j < n && j < 8; j++ {
+				j := j
+				ictx := graphql.WithFieldContext(ctx, &graphql.FieldContext{Index: &j})
+				arr = append(arr, rawJSON(e.execObj(ictx, opCtx, "Node", f.Selections, depth+1, append(append(make([]any, 0, len(fp)+1), fp...), j))))
+			}
+			out.Values[i] = arr
+			continue
 		case "__typename":
 			s = typ
 		case "op":
@@ -193,29 +219,29 @@ func (e echoSchema) execObj(ctx context.Context, opCtx *graphql.OperationContext
 			s = "n" + string(rune('0'+depth))
 		case "node":
 			parkAt("node", opCtx.Headers) // the parent selection set is collected, the child's is not
-			out.Values[i] = rawJSON(e.execObj(ctx, opCtx, "Node", f.Selections, depth+1))
+			out.Values[i] = rawJSON(e.execObj(ctx, opCtx, "Node", f.Selections, depth+1, fp))
 			continue
 		case "child":
 			parkAt("child", opCtx.Headers)
 			if depth >= 3 {
 				out.Values[i] = graphql.Null
 			} else {
-				out.Values[i] = rawJSON(e.execObj(ctx, opCtx, "Node", f.Selections, depth+1))
+				out.Values[i] = rawJSON(e.execObj(ctx, opCtx, "Node", f.Selections, depth+1, fp))
 			}
 			continue
 		case "__schema", "__type":
 			out.Values[i] = e.introRoot(ctx, opCtx, f) // intro.go: the real graphql/introspection wrappers
 			continue
 		case "user":
-			out.Values[i] = rawJSON(e.execObj(ctx, opCtx, "Node", f.Selections, depth+1))
+			out.Values[i] = rawJSON(e.execObj(ctx, opCtx, "Node", f.Selections, depth+1, fp))
 			continue
 		case "shape":
-			out.Values[i] = rawJSON(e.execObj(ctx, opCtx, "Sq", f.Selections, depth+1))
+			out.Values[i] = rawJSON(e.execObj(ctx, opCtx, "Sq", f.Selections, depth+1, fp))
 			continue
 		case "things":
 			var arr graphql.Array
 			for _, t := range []string{"Sq", "Circle", "Node"} {
-				arr = append(arr, rawJSON(e.execObj(ctx, opCtx, t, f.Selections, depth+1)))
+				arr = append(arr, rawJSON(e.execObj(ctx, opCtx, t, f.Selections, depth+1, fp)))
 			}
 			out.Values[i] = arr
 			continue
@@ -254,7 +280,7 @@ func (e echoSchema) execObj(ctx context.Context, opCtx *graphql.OperationContext
 		}
 		out.Values[i] = graphql.MarshalString(s)
 	}
-	out.Dispatch(ctx)
+	out.Dispatch(octx)
 	var b bytes.Buffer
 	out.MarshalGQL(&b)
 	return b.Bytes()
